@@ -68,7 +68,7 @@ CHECKS["C03"] = {
     "rule": "rapid draws config (method, 1..8 conns or singleplex) and <=60 ops over 1..3 streams with a designated closer (client, server or both) per stream; non-trivial = the stream-closing frame was delivered while a lower-numbered data frame of that stream was still undelivered on another connection; distinct = distinct scenarios.",
     "assumptions": ["only the client opens streams", "network delivers bytes exactly once, in order per connection"],
     "jobs": [
-        {"pkg": MUX, "run": "^TestVerif_C03_Close$", "checks": {"quick": 2000, "thorough": 300000}, "shards": {"thorough": 16}, "timeout": {"quick": 300}},
+        {"pkg": MUX, "run": "^TestVerif_C03_Close$", "checks": {"quick": 2000, "thorough": 300000}, "shards": {"thorough": 16}, "timeout": {"quick": 1200, "thorough": 7200}},
         {"pkg": SERVER, "run": "^TestVerif_C03_FullRig$", "checks": {"quick": 80, "thorough": 5000}, "shards": {"thorough": 16}, "timeout": {"quick": 600}},
     ],
 }
@@ -114,6 +114,7 @@ CHECKS["C14"] = {
     "assumptions": ["network delivers each record exactly once"],
     "jobs": [
         {"pkg": MUX, "run": "^TestVerif_C14_Datagrams$", "checks": {"quick": 2000, "thorough": 300000}, "shards": {"thorough": 16}, "timeout": {"quick": 300}},
+        {"pkg": MUX, "run": "^TestVerif_C14_Concurrent$", "checks": {"quick": 100, "thorough": 6000}, "shards": {"thorough": 8}, "timeout": {"quick": 900}},
         {"pkg": SERVER, "run": "^TestVerif_C14_UDPRig$", "checks": {"quick": 6, "thorough": 400}, "shards": {"thorough": 4}, "timeout": {"quick": 300}},
     ],
 }
@@ -157,6 +158,7 @@ CHECKS["C20"] = {
         {"pkg": CLIENT, "run": "^TestVerif_C20_Config$", "checks": {"quick": 6000, "thorough": 600000}, "shards": {"thorough": 16}},
         {"pkg": CLIENT, "run": "^TestVerif_C20_NoCrash$", "checks": {"quick": 3000, "thorough": 300000}, "shards": {"thorough": 8}},
         {"pkg": CLIENT, "run": "^TestVerif_C20_StreamTimeout$", "checks": {"quick": 300, "thorough": 20000}, "shards": {"thorough": 8}},
+        {"pkg": SERVER, "run": "^TestVerif_C20_SigAfterRetry$", "checks": {"quick": 150, "thorough": 10000}, "shards": {"thorough": 8}},
     ],
 }
 
@@ -169,6 +171,7 @@ CHECKS["C18"] = {
     "assumptions": ["bbolt commits are atomic and durable"],
     "jobs": [
         {"pkg": SERVER, "run": "^TestVerif_C18_Store$", "checks": {"quick": 1200, "thorough": 120000}, "shards": {"thorough": 16}, "timeout": {"quick": 300}},
+        {"pkg": SERVER, "run": "^TestVerif_C18_Concurrent$", "checks": {"quick": 300, "thorough": 20000}, "shards": {"thorough": 8}},
     ],
 }
 
